@@ -7,6 +7,11 @@ package swarm
 // (recording, gateable Emit = a stalled subscriber), a recording Notifiee with
 // gates, and fake transport.CapableConns (direct / relayed-limited /
 // relayed-UNLIMITED; Close can block on a gate) fed through Swarm.addConn.
+// Inbound streams: the "remote" opens streams on a fake conn at any moment after addConn was called (also while the
+// Connected handler of that conn is held on its gate); the fake's AcceptStream hands them to the swarm's accept loop
+// (label 44) and the swarm's stream handler records them (label 46).  Table reader: before every driver stimulus the
+// driver reads ConnsToPeer for every conn given to addConn (label 47); inside the bubble all other goroutines are
+// durably blocked then, so the read is one atomic step between two observed labels.
 // Mode A: synctest bubble, one driver stimulus at a time + synctest.Wait().
 // Mode B (real scheduler): addConn is stalled in the window between the insert
 // into conns.m and connectionEventsEmitter.AddConn by holding
@@ -41,6 +46,8 @@ type c06wConnCfg struct {
 	blockConn  bool
 	blockDisc  bool
 	blockClose bool // the transport-level Close blocks on a gate
+	streams    int  // inbound streams the remote opens on this conn (driver stimuli)
+	hReset     bool // the stream handler resets the stream (else it stays open until doClose resets it)
 }
 
 type c06wCfg struct {
@@ -60,21 +67,21 @@ func c06wB(x bool) int64 {
 func (c *c06wCfg) meta(mode int64) []int64 {
 	m := []int64{mode, int64(len(c.conns))}
 	for _, k := range c.conns {
-		m = append(m, int64(k.peer), c06wB(k.lim), c06wB(k.proxy), c06wB(k.closeIt), int64(k.connAct), c06wB(k.blockConn), c06wB(k.blockDisc), c06wB(k.blockClose))
+		m = append(m, int64(k.peer), c06wB(k.lim), c06wB(k.proxy), c06wB(k.closeIt), int64(k.connAct), c06wB(k.blockConn), c06wB(k.blockDisc), c06wB(k.blockClose), int64(k.streams), c06wB(k.hReset))
 	}
 	return append(m, c06wB(c.blockPub), c06wB(c.withClose), c06wB(c.withClose2))
 }
 
 func c06wCfgFromMeta(m []int64) (int64, *c06wCfg, []int64) {
-	if len(m) < 2 || m[1] < 0 || len(m) < 2+8*int(m[1])+3 {
+	if len(m) < 2 || m[1] < 0 || len(m) < 2+10*int(m[1])+3 {
 		return 0, nil, nil
 	}
 	c := &c06wCfg{}
 	for i := 0; i < int(m[1]); i++ {
-		f := m[2+8*i:]
-		c.conns = append(c.conns, c06wConnCfg{peer: int(f[0]), lim: f[1] != 0, proxy: f[2] != 0, closeIt: f[3] != 0, connAct: int(f[4]), blockConn: f[5] != 0, blockDisc: f[6] != 0, blockClose: f[7] != 0})
+		f := m[2+10*i:]
+		c.conns = append(c.conns, c06wConnCfg{peer: int(f[0]), lim: f[1] != 0, proxy: f[2] != 0, closeIt: f[3] != 0, connAct: int(f[4]), blockConn: f[5] != 0, blockDisc: f[6] != 0, blockClose: f[7] != 0, streams: int(f[8]), hReset: f[9] != 0})
 	}
-	f := m[2+8*int(m[1]):]
+	f := m[2+10*int(m[1]):]
 	c.blockPub, c.withClose, c.withClose2 = f[0] != 0, f[1] != 0, f[2] != 0
 	return m[0], c, f[3:]
 }
@@ -102,6 +109,14 @@ type c06wRun struct {
 	blocked []*c06wGate
 	outstanding atomic.Int64
 	lastPub map[int]network.Connectedness
+	opened  []int // streams the remote opened so far, per conn
+	cov     map[string]int64
+}
+
+func (r *c06wRun) cover(name string) {
+	r.mu.Lock()
+	r.cov[name]++
+	r.mu.Unlock()
 }
 
 func (r *c06wRun) rec(code, x, y, z int64) {
@@ -143,7 +158,28 @@ type c06wConn struct {
 	once     sync.Once
 	accepted atomic.Bool
 	closed   chan struct{}
+	streamq  chan *c06wStream
 }
+
+// fake muxed stream: carries no data
+type c06wStream struct {
+	c     *c06wConn
+	reset atomic.Bool
+}
+
+func (st *c06wStream) Read([]byte) (int, error)    { return 0, errors.New("no data") }
+func (st *c06wStream) Write(b []byte) (int, error) { return len(b), nil }
+func (st *c06wStream) Close() error                { return nil }
+func (st *c06wStream) CloseRead() error            { return nil }
+func (st *c06wStream) CloseWrite() error           { return nil }
+func (st *c06wStream) Reset() error                { st.reset.Store(true); return nil }
+func (st *c06wStream) ResetWithError(network.StreamErrorCode) error {
+	st.reset.Store(true)
+	return nil
+}
+func (st *c06wStream) SetDeadline(time.Time) error      { return nil }
+func (st *c06wStream) SetReadDeadline(time.Time) error  { return nil }
+func (st *c06wStream) SetWriteDeadline(time.Time) error { return nil }
 
 func (c *c06wConn) RemotePeer() peer.ID            { return c.p }
 func (c *c06wConn) RemotePublicKey() ic.PubKey     { return nil }
@@ -176,8 +212,18 @@ func (c *c06wConn) AcceptStream() (network.MuxedStream, error) {
 	if c.accepted.CompareAndSwap(false, true) {
 		c.r.rec(35, int64(c.i), 0, 0)
 	}
-	<-c.closed
-	return nil, errors.New("closed")
+	select {
+	case <-c.closed:
+		return nil, errors.New("closed")
+	default:
+	}
+	select {
+	case st := <-c.streamq:
+		c.r.rec(44, int64(c.i), 0, 0)
+		return st, nil
+	case <-c.closed:
+		return nil, errors.New("closed")
+	}
 }
 
 // ---- harness event bus -----------------------------------------------------------
@@ -245,6 +291,44 @@ func (r *c06wRun) listed(i int) *Conn {
 		}
 	}
 	return nil
+}
+
+// the table reader: ConnsToPeer of the conn's peer
+func (r *c06wRun) listedP(i int) bool {
+	for _, c := range r.s.ConnsToPeer(r.fakes[i].p) {
+		if sc := c.(*Conn); sc.conn == transport.CapableConn(r.fakes[i]) {
+			return true
+		}
+	}
+	return false
+}
+
+func (r *c06wRun) handleStream(st network.Stream) {
+	i := r.idxOf(st.Conn())
+	r.rec(46, int64(i), 0, 0)
+	r.cover("sw.stream.handled")
+	if r.cfg.conns[i].hReset {
+		st.Reset()
+	}
+}
+
+// the remote opens a stream: it is available to AcceptStream at once
+func (r *c06wRun) doOpenStream(i int) {
+	r.mu.Lock()
+	r.opened[i]++
+	held := false
+	for _, g := range r.blocked {
+		if g.kind == 1 && g.id == i {
+			held = true
+		}
+	}
+	r.mu.Unlock()
+	if held {
+		r.cover("sw.stream.opened_while_connected_held")
+	} else {
+		r.cover("sw.stream.opened")
+	}
+	r.fakes[i].streamq <- &c06wStream{c: r.fakes[i]}
 }
 
 func (r *c06wRun) doAdd(i int) {
@@ -331,6 +415,14 @@ func (r *c06wRun) enabled() []func() {
 	for i := 0; i < n; i++ {
 		if r.addedC[i] {
 			listed[i] = r.listed(i)
+			// table reader (label 47); all other goroutines are durably blocked (mode A only calls enabled())
+			b := r.listedP(i)
+			r.rec(47, int64(i), c06wB(b), 0)
+			if b {
+				r.cover("sw.listed.yes")
+			} else {
+				r.cover("sw.listed.no")
+			}
 		}
 	}
 	r.mu.Lock()
@@ -338,6 +430,12 @@ func (r *c06wRun) enabled() []func() {
 	if r.nextAdd < n {
 		i := r.nextAdd
 		acts = append(acts, func() { r.doAdd(i) })
+	}
+	for i := 0; i < n; i++ {
+		i := i
+		if r.addedC[i] && r.opened[i] < r.cfg.conns[i].streams && !r.fakes[i].IsClosed() {
+			acts = append(acts, func() { r.doOpenStream(i) })
+		}
 	}
 	for i := 0; i < n; i++ {
 		i := i
@@ -362,9 +460,10 @@ func (r *c06wRun) enabled() []func() {
 func c06wNewRun(t *testing.T, cfg *c06wCfg) *c06wRun {
 	n := len(cfg.conns)
 	r := &c06wRun{cfg: cfg, byConn: map[network.Conn]int{}, conns: make([]*Conn, n), addedC: make([]bool, n), addRet: make([]int, n),
-		closeRq: make([]bool, n), lastPub: map[int]network.Connectedness{}}
+		closeRq: make([]bool, n), lastPub: map[int]network.Connectedness{}, opened: make([]int, n), cov: map[string]int64{}}
 	for i := 0; i < n; i++ {
-		r.fakes = append(r.fakes, &c06wConn{r: r, i: i, p: c06PeerID(cfg.conns[i].peer), closed: make(chan struct{})})
+		r.fakes = append(r.fakes, &c06wConn{r: r, i: i, p: c06PeerID(cfg.conns[i].peer), closed: make(chan struct{}),
+			streamq: make(chan *c06wStream, cfg.conns[i].streams+1)})
 	}
 	ps, err := pstoremem.NewPeerstore()
 	if err != nil {
@@ -377,6 +476,7 @@ func c06wNewRun(t *testing.T, cfg *c06wCfg) *c06wRun {
 	}
 	r.s = s
 	s.Notify(&c06wNotifiee{r: r})
+	s.SetStreamHandler(r.handleStream)
 	return r
 }
 
@@ -429,10 +529,35 @@ func (r *c06wRun) finish(out *verifh.Out, mode int64, chosen []int, stuck bool) 
 	r.mu.Unlock()
 	for j := 0; j+3 < len(labels); j += 4 {
 		switch labels[j] {
-		case 31, 32, 9, 10, 11, 12, 33, 34, 35, 36, 39, 41:
+		case 31, 32, 9, 10, 11, 12, 33, 34, 35, 36, 39, 41, 44, 46, 47:
 			labels[j+1] = ren[labels[j+1]]
 		}
 	}
+	// coverage: what the trace shows about streams and listings
+	connE, discB := map[int64]bool{}, map[int64]bool{}
+	for j := 0; j+3 < len(labels); j += 4 {
+		x := labels[j+1]
+		switch labels[j] {
+		case 10:
+			connE[x] = true
+		case 11:
+			discB[x] = true
+		case 44:
+			out.Cover("sw.stream.accepted")
+		case 47:
+			if labels[j+2] == 1 && !connE[x] {
+				out.Cover("sw.listed.yes_before_connected_returned")
+			}
+			if labels[j+2] == 0 && connE[x] && !discB[x] {
+				out.Cover("sw.listed.no_before_disconnected")
+			}
+		}
+	}
+	r.mu.Lock()
+	for k, v := range r.cov {
+		out.CoverN(k, v)
+	}
+	r.mu.Unlock()
 	meta := r.cfg.meta(mode)
 	for _, c := range chosen {
 		meta = append(meta, int64(c))
@@ -690,9 +815,23 @@ func TestVerifC06Sw(t *testing.T) {
 		for i := 0; i < n; i++ {
 			lim, proxy := c06wClass(rnd.Intn(4))
 			cfg.conns = append(cfg.conns, c06wConnCfg{peer: rnd.Intn(2), lim: lim, proxy: proxy, closeIt: rnd.Chance(3, 4), connAct: c06wI(rnd.Chance(1, 6)),
-				blockConn: rnd.Chance(1, 3), blockDisc: rnd.Chance(1, 4), blockClose: rnd.Chance(1, 3)})
+				blockConn: rnd.Chance(1, 3), blockDisc: rnd.Chance(1, 4), blockClose: rnd.Chance(1, 3),
+				streams: c06wI(rnd.Chance(1, 2)) * (1 + rnd.Intn(2)), hReset: rnd.Chance(1, 2)})
 		}
 		c06wRandom(t, out, rnd, cfg, 2, "random")
+	}
+	// F7: inbound streams opened by the remote at any moment, in particular while the Connected handler is held on its
+	// gate; the handler resets the stream or leaves it to doClose; Conn.Close / Swarm.Close / Connected closing the conn
+	for m := 0; m < 8; m++ {
+		cfg := &c06wCfg{conns: []c06wConnCfg{{closeIt: true, blockConn: true, streams: 1 + m&1, hReset: m&2 != 0, blockDisc: m == 5}}, withClose: m&4 != 0}
+		c06wExplore(t, out, cfg, budget, "streams1")
+		c06wRandom(t, out, rnd, cfg, 10, "streams1r")
+	}
+	for m := 0; m < 8; m++ {
+		cfg := &c06wCfg{conns: []c06wConnCfg{{closeIt: true, blockConn: m&1 != 0, streams: 1, hReset: m&2 != 0, connAct: m >> 2 & 1},
+			{peer: m & 1, closeIt: m&2 == 0, blockConn: true, streams: 1, blockClose: m == 6}}, withClose: m == 3 || m == 7}
+		c06wExplore(t, out, cfg, budget/2, "streams2")
+		c06wRandom(t, out, rnd, cfg, 20, "streams2r")
 	}
 	// F6 (real scheduler): two overlapping Swarm.Close calls, the first parked behind a gated Disconnected / subscriber /
 	// transport Close
